@@ -51,7 +51,7 @@ def _generate(ctx, quick):
                 consts={"MaxJoin": "2"}, timeout=900, heap="4g")
     two = _hist(r.printed.get("SCRIPT", []))
     ctx.extra["two_join_histories_enumerated"] = len(two)
-    n2 = 120 if quick else 1200
+    n2 = 120 if quick else 3000
     out += two if len(two) <= n2 else sorted(ctx.rng.sample(two, n2), key=lambda s: json.dumps(s, sort_keys=True))
     if not quick:
         r = ctx.tlc("GenInvitation", "Gen_Invitation.cfg", name="gen_mut2_join1", workers=1,
@@ -99,7 +99,7 @@ def run_c12(ctx, replay=None):
             for _ in range(1 if quick else 3):
                 scripts.append({"id": len(scripts), "cfg": {"mode": "flips", "via": via}, "steps": []})
         for gt in ("multi", "contact", "account"):
-            for _ in range(2 if quick else 12):
+            for _ in range(2 if quick else 20):
                 scripts.append({"id": len(scripts), "cfg": {"mode": "desc", "gtype": gt}, "steps": []})
     byid = {s["id"]: s for s in scripts}
     events, out = vf.run_driver(ctx, ".", DRV, ov, scripts, "invite", timeout=1500,
@@ -129,6 +129,10 @@ def run_c12(ctx, replay=None):
             tgt.append(e)
             origin[n] = (bid, i)
             n += 1
+    # most telling first: the activated group context ran under the account identity
+    pairs = [(suspects[k], suspects[k + 1]) for k in range(0, len(suspects), 2)]
+    pairs.sort(key=lambda p: (not p[1].get("actmemacct", False), p[1].get("via") != "service", p[1]["inv"]["type"], p[0]["id"]))
+    suspects = [x for p in pairs for x in p]
     nsus = len(suspects) // 2
     rejects = []
     if main:
